@@ -37,6 +37,7 @@ func runC20(r *Run) {
 	if r.Want("chain") {
 		c20Chain(r)
 	}
+	c20ChainRetry(r)
 	if r.Want("client") {
 		c20ClientInterceptor(r)
 	}
